@@ -127,6 +127,7 @@ type stream struct {
 	nonces      map[string]string // nonce of the last response per type on THIS stream (a nonce is per stream)
 	edsDue      bool              // a CDS response arrived on this stream and no EDS response since
 	reconnect   bool
+	lastType    string // type of the last response seen
 	log         []string
 }
 
@@ -306,6 +307,7 @@ func (s sotwStream) Send(resp *discovery.DiscoveryResponse) error {
 func (e *envoy) applySotw(s *stream, resp *discovery.DiscoveryResponse) {
 	typ := shortType(resp.TypeUrl)
 	s.resps[typ]++
+	s.lastType = typ
 	e.nResp[typ]++
 	e.nonce[typ] = resp.Nonce
 	s.nonces[typ] = resp.Nonce
@@ -416,6 +418,7 @@ func (s deltaStream) Send(resp *discovery.DeltaDiscoveryResponse) error {
 func (e *envoy) applyDelta(s *stream, resp *discovery.DeltaDiscoveryResponse) {
 	typ := shortType(resp.TypeUrl)
 	s.resps[typ]++
+	s.lastType = typ
 	e.nResp[typ]++
 	e.nonce[typ] = resp.Nonce
 	s.nonces[typ] = resp.Nonce
